@@ -1,17 +1,11 @@
+import GopModel.Driver.Loop
 import GopModel.Driver.Proj
-/- Dispatch table of the line-protocol driver: first tab-separated field selects the handler. -/
+/- Handlers of the default driver executable `gopdriver` (small pure-core models).
+Larger model groups have their own executable (see lakefile.toml). -/
 namespace GopModel.Driver
 
 def handlers : List (String × (List String → String)) := [
   ("projs", handleProjs)
 ]
-
-def dispatch (line : String) : String :=
-  match line.splitOn "\t" with
-  | [] => "bad-op"
-  | op :: fields =>
-    match handlers.lookup op with
-    | some h => h fields
-    | none => "bad-op"
 
 end GopModel.Driver
